@@ -611,6 +611,7 @@ pub fn wcb_rule(cx: &Cx, rep: &mut Report) {
         if std::env::var("GENLINT_DEBUG_WCB").is_ok() { for (st, fl) in &outs { eprintln!("WCB build [{}] -> {}", crate::model::cond_str(&st.cond), match fl { Flow::Val(v) | Flow::Ret(v) => v.short(), _ => "?".into() }); } eprintln!("UNSUP {:?}", ev.unsupported.borrow()); }
         let mut ok_nonempty = false;
         let mut ok_empty = false;
+        let mut extra_exit = false;
         for (st, fl) in &outs {
             let empty = st.cond.iter().find(|(a, _)| a.starts_with("all-empty(")).map(|(_, b)| *b);
             // `TokenStream::new()` is the empty template
@@ -626,9 +627,11 @@ pub fn wcb_rule(cx: &Cx, rep: &mut Report) {
                         ok_nonempty = items.len() == 2 && r1 && r2 && t.tokens.replace(' ', "").starts_with("where");
                     }
                 }
-                None => {}
+                // a result that does not hinge on what was collected (an early exit on something else) loses predicates
+                None => { extra_exit = true; }
             }
         }
+        rep.check(!extra_exit, "DM-wcb", &f.qual, "build-only-on-collected", "the where-clause is decided by something other than what the builder collected (an exit before the collected types and predicates are looked at): declared or pushed predicates are dropped on that path", &site(&f), json!({}));
         rep.check(ok_nonempty && ok_empty, "DM-wcb", &f.qual, "build", "the where-clause is not `where` + every collected type through the trait formatter + every collected predicate verbatim (or nothing when both are empty)", &site(&f), json!({"nonempty": ok_nonempty, "empty": ok_empty}));
     } else { rep.fail("unanalysable", "WhereClauseBuilder", "build", "method -> TokenStream not found", "bound.rs", json!({})); }
     // new: the declared where-clause is copied
